@@ -1,10 +1,14 @@
 package harness
 
 import (
+	"context"
 	"errors"
 	"fmt"
 
+	"diagonal.works/b6"
 	"diagonal.works/b6/encoding"
+	"diagonal.works/b6/ingest"
+	"diagonal.works/b6/osm"
 	"verif/simrt"
 )
 
@@ -14,7 +18,13 @@ func init() {
 	register(&Scenario{
 		Prop: "C28",
 		Run:  runC28,
-		Real: []string{"encoding.Uint64Map.EachItem with its goroutine pool, channels and select"},
+		Real: []string{
+			"encoding.Uint64Map.EachItem with its goroutine pool, channels and select",
+			"EachFeature of the basic world (ingest.EachFeature / eachIngestFeature / feedFeatures), of MutableOverlayWorld (overlay then base) and of the compact world (FeaturesByID.EachFeature over Uint64Map.EachItem)",
+			"ingest.MemoryFeatureSource.Read, ingest.ParalleliseEmit, ingest.MergedFeatureSource.Read",
+			"osm.ReadPBFWithOptions (blob reader goroutine, decoder goroutines, done blobs)",
+			"MutableOverlayWorld.EachModifiedTag / ModifiedTags.EachModifiedTag",
+		},
 		Stubs: []string{
 			"callback function (harness): returns an injected error at a chosen invocation, optionally yields to the scheduler first",
 			"encoding.Buffer (the repository's own in-memory io.WriterAt) holds the map bytes",
@@ -65,10 +75,240 @@ func (p *failPlan) call() error {
 }
 
 func runC28(rc *RC) {
-	switch rc.Pick(1) {
+	switch rc.Pick(2, 2, 2, 2, 2, 2, 2, 2, 2) {
 	case 0:
 		c28EachItem(rc)
+	case 1:
+		c28EachFeature(rc, "basic world")
+	case 2:
+		c28EachFeature(rc, "mutable overlay world")
+	case 3:
+		c28EachFeature(rc, "compact world")
+	case 4:
+		c28MemorySource(rc)
+	case 5:
+		c28PBF(rc)
+	case 6:
+		c28ModifiedTags(rc)
+	case 7:
+		c28Parallelise(rc)
+	case 8:
+		c28Merged(rc)
 	}
+}
+
+// c28Plan draws the failure plan shared by all targets.
+func c28Plan(rc *RC, n int) (*failPlan, int) {
+	goroutines := []int{1, 2, 3, 4, 8}[rc.Draw(5)]
+	plan := &failPlan{rc: rc, failedAt: -1}
+	plan.at = rc.Draw(n)
+	if rc.Pct(50) {
+		plan.at = rc.Draw(min(n, 8)) // early failure: a long tail remains
+	}
+	plan.always = rc.Pct(50)
+	if rc.Pct(30) {
+		plan.slowPct = rc.Range(5, 50)
+	}
+	rc.Configured("callback-error")
+	rc.Knob("goroutines", goroutines)
+	return plan, goroutines
+}
+
+// manyPoints returns n extra point features (outside the observation
+// universe; only used where long enumerations are needed).
+func manyPoints(n int) []*fspec {
+	out := make([]*fspec, 0, n)
+	for i := 0; i < n; i++ {
+		out = append(out, &fspec{ID: pointID(1000 + i), Lat: int32(515400000 + (i/20)*3000), Lng: int32(-1200000 + (i%20)*3000), Tags: []tagKV{{"name", fmt.Sprintf("p%d", i)}}})
+	}
+	return out
+}
+
+func c28EachFeature(rc *RC, kind string) {
+	target := "C28/EachFeature(" + kind + ")"
+	rc.Phase(target)
+	g := newCityGen(rc)
+	g.noBaseCollections = kind == "compact world"
+	specs := g.baseCity(true)
+	if rc.Pct(70) {
+		specs = append(specs, manyPoints(rc.Range(60, 160))...)
+	}
+	var w b6.World
+	var err error
+	n := len(specs)
+	switch kind {
+	case "basic world":
+		w, err = newBasicWorld(specs)
+	case "compact world":
+		w, err = newCompactWorld(specs, 1)
+	default:
+		var bw b6.World
+		bw, err = newBasicWorld(specs)
+		if err == nil {
+			o := ingest.NewMutableOverlayWorld(bw)
+			// some features in the overlay: replaced base points and new points
+			k := rc.Range(0, 12)
+			for i := 0; i < k; i++ {
+				s := g.pointSpec(rc.Draw(maxPoints), 2)
+				s.Tags = g.someTags(2)
+				if aerr := o.AddFeature(s.build()); aerr != nil {
+					rc.Fail("HARNESS/fixture", "%v", aerr)
+					return
+				}
+			}
+			w = o
+		}
+	}
+	if err != nil {
+		rc.Fail("HARNESS/fixture", "%v", err)
+		return
+	}
+	plan, goroutines := c28Plan(rc, n)
+	rc.Case(kind, n, goroutines, plan.at, plan.always, plan.slowPct)
+	rc.Notef("%s with %d features, EachFeature(goroutines=%d), callback fails at invocation %d (always=%v), slow%%=%d", kind, n, goroutines, plan.at, plan.always, plan.slowPct)
+	var cerr error
+	rc.Sim(target, func() {
+		cerr = w.EachFeature(func(f b6.Feature, goroutine int) error { return plan.call() }, &b6.EachFeatureOptions{Goroutines: goroutines})
+	})
+	checkStreamOutcome(rc, target, plan, n, true, cerr)
+}
+
+func c28MemorySource(rc *RC) {
+	const target = "C28/MemoryFeatureSource.Read"
+	rc.Phase(target)
+	specs := manyPoints(rc.Range(1, 200))
+	n := len(specs)
+	plan, goroutines := c28Plan(rc, n)
+	rc.Case("memsource", n, goroutines, plan.at, plan.always, plan.slowPct)
+	rc.Notef("MemoryFeatureSource of %d features, Read(Goroutines=%d), emit fails at invocation %d (always=%v), slow%%=%d", n, goroutines, plan.at, plan.always, plan.slowPct)
+	src := ingest.MemoryFeatureSource(buildAll(specs))
+	var cerr error
+	rc.Sim(target, func() {
+		cerr = src.Read(ingest.ReadOptions{Goroutines: goroutines}, func(f ingest.Feature, goroutine int) error { return plan.call() }, context.Background())
+	})
+	checkStreamOutcome(rc, target, plan, n, true, cerr)
+}
+
+func c28PBF(rc *RC) {
+	const target = "C28/osm.ReadPBFWithOptions"
+	rc.Phase(target)
+	// many small blocks: alternate element types so that the writer starts a new block often
+	n := rc.Range(1, 220)
+	var disk chunkWriter
+	w, err := osm.NewWriter(&disk)
+	if err != nil {
+		rc.Fail("HARNESS/fixture", "%v", err)
+		return
+	}
+	runLen := rc.Range(1, 4)
+	for i := 0; i < n; i++ {
+		var e osm.Element
+		if (i/runLen)%2 == 0 {
+			e = &osm.Node{ID: osm.NodeID(i + 1), Location: osm.LatLng{Lat: 51.5, Lng: -0.1}}
+		} else {
+			e = &osm.Way{ID: osm.WayID(i + 1), Nodes: []osm.NodeID{1, 2}}
+		}
+		if err := w.WriteElement(e); err != nil {
+			rc.Fail("HARNESS/fixture", "%v", err)
+			return
+		}
+	}
+	if err := w.Flush(); err != nil {
+		rc.Fail("HARNESS/fixture", "%v", err)
+		return
+	}
+	plan, cores := c28Plan(rc, n)
+	rc.Case("pbf", n, runLen, cores, plan.at, plan.always, plan.slowPct)
+	rc.Notef("PBF file of %d elements in runs of %d per block, ReadPBFWithOptions(Cores=%d), emit fails at invocation %d (always=%v), slow%%=%d", n, runLen, cores, plan.at, plan.always, plan.slowPct)
+	sr := &shortReader{rc: rc, data: disk.buf.Bytes(), mode: rc.Draw(4)}
+	var cerr error
+	rc.Sim(target, func() {
+		cerr = osm.ReadPBFWithOptions(sr, func(e osm.Element, goroutine int) error { return plan.call() }, osm.ReadOptions{Cores: cores})
+	})
+	checkStreamOutcome(rc, target, plan, n, true, cerr)
+}
+
+func c28ModifiedTags(rc *RC) {
+	const target = "C28/MutableOverlayWorld.EachModifiedTag"
+	rc.Phase(target)
+	specs := manyPoints(rc.Range(1, 180))
+	bw, err := newBasicWorld(specs)
+	if err != nil {
+		rc.Fail("HARNESS/fixture", "%v", err)
+		return
+	}
+	o := ingest.NewMutableOverlayWorld(bw)
+	n := 0
+	for _, s := range specs {
+		// plain keys only: these are recorded as modified tags of base features
+		if err := o.AddTag(s.ID, b6.Tag{Key: "note", Value: b6.NewStringExpression("x")}); err != nil {
+			rc.Fail("HARNESS/fixture", "%v", err)
+			return
+		}
+		n++
+		if rc.Pct(20) {
+			o.RemoveTag(s.ID, "name")
+			n++
+		}
+	}
+	plan, goroutines := c28Plan(rc, n)
+	rc.Case("modtags", n, goroutines, plan.at, plan.always, plan.slowPct)
+	rc.Notef("overlay world with %d modified tags, EachModifiedTag(goroutines=%d), callback fails at invocation %d (always=%v), slow%%=%d", n, goroutines, plan.at, plan.always, plan.slowPct)
+	var cerr error
+	rc.Sim(target, func() {
+		cerr = o.EachModifiedTag(func(t ingest.ModifiedTag, goroutine int) error { return plan.call() }, &b6.EachFeatureOptions{Goroutines: goroutines})
+	})
+	checkStreamOutcome(rc, target, plan, n, true, cerr)
+}
+
+func c28Parallelise(rc *RC) {
+	const target = "C28/ingest.ParalleliseEmit"
+	rc.Phase(target)
+	features := buildAll(manyPoints(rc.Range(1, 200)))
+	n := len(features)
+	plan, goroutines := c28Plan(rc, n)
+	if goroutines < 2 {
+		goroutines = 2 // with one goroutine ParalleliseEmit hands back the emit function itself
+	}
+	rc.Case("parallelise", n, goroutines, plan.at, plan.always, plan.slowPct)
+	rc.Notef("ParalleliseEmit(goroutines=%d) fed %d features round-robin, emit fails at invocation %d (always=%v), slow%%=%d", goroutines, n, plan.at, plan.always, plan.slowPct)
+	var cerr error
+	fed := 0
+	rc.Sim(target, func() {
+		emit, wait := ingest.ParalleliseEmit(func(f ingest.Feature, goroutine int) error { return plan.call() }, goroutines, context.Background())
+		for i, f := range features {
+			if err := emit(f, i%goroutines); err != nil {
+				cerr = err
+				break
+			}
+			fed++
+		}
+		if err := wait(); err != nil && cerr == nil {
+			cerr = err
+		}
+	})
+	checkStreamOutcome(rc, target, plan, n, true, cerr)
+}
+
+func c28Merged(rc *RC) {
+	const target = "C28/MergedFeatureSource.Read"
+	rc.Phase(target)
+	k := rc.Range(1, 4)
+	all := manyPoints(rc.Range(k, 200))
+	n := len(all)
+	var srcs ingest.MergedFeatureSource
+	per := (n + k - 1) / k
+	for i := 0; i < n; i += per {
+		srcs = append(srcs, ingest.MemoryFeatureSource(buildAll(all[i:min(n, i+per)])))
+	}
+	plan, goroutines := c28Plan(rc, n)
+	rc.Case("merged", n, k, goroutines, plan.at, plan.always, plan.slowPct)
+	rc.Notef("MergedFeatureSource of %d sources / %d features, Read(Goroutines=%d), emit fails at invocation %d (always=%v), slow%%=%d", len(srcs), n, goroutines, plan.at, plan.always, plan.slowPct)
+	var cerr error
+	rc.Sim(target, func() {
+		cerr = srcs.Read(ingest.ReadOptions{Goroutines: goroutines}, func(f ingest.Feature, goroutine int) error { return plan.call() }, context.Background())
+	})
+	checkStreamOutcome(rc, target, plan, n, true, cerr)
 }
 
 func c28EachItem(rc *RC) {
